@@ -356,7 +356,7 @@ class _Render(object):
             L.append(ind + 'try:')
             self.block(s[1], ind + '    ')
             if s[2] is not None:
-                L.append(ind + 'except E1:')
+                L.append(ind + ('except E1:' if self.rng.random() < 0.7 else 'except E2:'))
                 self.block(s[2], ind + '    ')
             if s[3] is not None:
                 self.features.add('finally')
@@ -508,7 +508,18 @@ class _Gen(object):
             return '(lambda q: q + %s)(%s)' % (r.choice(self.ivars), self.iexpr(depth - 1))
         if c < 0.97:
             self.features.add('comprehension')
-            return 'sum([tr(%d, q) for q in l if q > %s])' % (self.slot(), r.choice(['0', 'a', '1']))
+            form = r.randrange(6)
+            if form == 0:
+                return 'sum([tr(%d, q) for q in l if q > %s])' % (self.slot(), r.choice(['0', 'a', '1']))
+            if form == 1:
+                return 'sum([l + %s for l in l])' % r.choice(self.ivars)          # target shadows the iterable's name
+            if form == 2:
+                return 'len({q: %s for q in l})' % r.choice(self.ivars)
+            if form == 3:
+                return 'sum(q * %s for q in l if q != %s)' % (r.choice(self.ivars), r.choice(self.ivars))
+            if form == 4:
+                return 'len({%s + q for q in l})' % r.choice(self.ivars)
+            return 'sum([p + q for p in l for q in [%s, 1] if p < q + %s])' % (r.choice(self.ivars), r.choice(self.ivars))
         return '(-%s)' % self.iexpr(depth - 1)
 
     def bexpr(self, depth=2):
@@ -639,8 +650,12 @@ class _Gen(object):
                 self.emit(ind + '        ', 'raise %s(tr(%d))' % (r.choice(['E1', 'E1', 'E2']), self.slot()))
             m = r.random()
             if m < 0.75:
-                self.emit(ind, 'except E1:')
+                hk = r.random()
+                self.emit(ind, 'except E1:' if hk < 0.6 else 'except E2:')
                 self.block(ind + '    ', depth - 1, inloop, infin)
+                if hk >= 0.85:
+                    self.emit(ind, 'except E1:')
+                    self.block(ind + '    ', depth - 1, inloop, infin)
             if m >= 0.75 or r.random() < 0.35:
                 F.add('finally')
                 self.emit(ind, 'finally:')
